@@ -37,7 +37,7 @@ def main():
         for p in [prop] + also:
             t0 = time.time()
             r = subprocess.run(["./check", p, "--tier", tier], cwd="/verif", stdout=subprocess.PIPE, stderr=subprocess.STDOUT, text=True,
-                               env=dict(os.environ, VERIF_SEED=os.environ.get("VERIF_SEED", "1")))
+                               env=dict(os.environ, VERIF_SEED=os.environ.get("VERIF_SEED", "1"), VERIF_EVIDENCE_DIR="/verif/.build/seed-evidence"))
             lines = [l for l in r.stdout.splitlines() if l.startswith(("VIOLATION", "  violation", "RESULT", "INCONCLUSIVE", "KNOWN"))]
             out["results"][p] = {"exit": r.returncode, "wall_s": round(time.time() - t0, 1), "lines": [l[:500] for l in lines]}
             print("== %s on %s: exit %d in %.0fs" % (p, d, r.returncode, time.time() - t0))
